@@ -127,7 +127,8 @@ def main():
                 "text": "Coq theorems about the Gallina model (%s), unbounded in sizes/steps; %s" % (what, tie),
                 "design_ref": "DESIGN.md section 4 (%s)" % pid,
             },
-            "level_note": note,
+            "level_note": note + "; tie of record = correspondence (model executed against the implementation); translation-tie lemmas are extra obligations re-proved on every run: one that "
+                          "does not re-check while the correspondence agrees everywhere (also under three further seeds) yields a TIE-UNDISCHARGED line, not a VIOLATION, and that run's evidence claims the correspondence tie only (DESIGN.md section 10)",
             "technique": tech,
         })
     engines = []
